@@ -30,4 +30,10 @@ def run(tier, replay=None):
                           "random long inputs (position independence). distinct = distinct inputs")
     v.coverage["exhaustive"] = True
     v.coverage["checker_cmd"] = "tlc Trace_C12 (VF_TRACE=<shard>) ; tlc MC_Bcd"
+    if replay is None:
+        # optional strengthening (never a verdict about the code): TLAPS proofs of the specification-level laws
+        pr = vflib.tlaps("BcdProofs")
+        v.coverage["tlaps"] = {"module": "spec/proofs/BcdProofs.tla", "what": "per-byte exactness of the nibble arithmetic (two digits <-> one valid BCD byte, non-decimal nibbles invalid, Bcd2/ToBcd2 inverse)",
+                               "obligations": pr[0] if pr else None, "proved": pr[1] if pr else None, "wall_s": pr[2] if pr else None,
+                               "status": "all proved" if pr and pr[0] == pr[1] else "not discharged in this run (the claim then rests on the TLC bound)"}
     return v.finish(write_evidence=replay is None)
